@@ -58,6 +58,29 @@ func (p *parkStore) Delete(key string) error {
 	return p.Storage.Delete(key)
 }
 
+// parkStoreCAS: like gatedStoreCAS — the parking handle offers storage.CASStore iff what it wraps does.
+type parkStoreCAS struct {
+	*parkStore
+	cas storage.CASStore
+}
+
+func (p *parkStoreCAS) SetNX(key string, v interface{}, ttl time.Duration) (bool, error) {
+	p.gate("set", key)
+	return p.cas.SetNX(key, v, ttl)
+}
+func (p *parkStoreCAS) CompareAndSwap(key string, o, n interface{}, ttl time.Duration) (bool, error) {
+	p.gate("set", key)
+	return p.cas.CompareAndSwap(key, o, n, ttl)
+}
+
+// handle is what the node's connstate.Store is built on.
+func (p *parkStore) handle() storage.Storage {
+	if c, ok := p.Storage.(storage.CASStore); ok {
+		return &parkStoreCAS{parkStore: p, cas: c}
+	}
+	return p
+}
+
 var requestSerial int
 
 type pendingRequest struct {
